@@ -1,9 +1,12 @@
-// U12 `spacing` — TokenSpacing::format on 3 tokens of ARBITRARY TokenType and arbitrary u16 counters.
+// U12 `spacing` — TokenSpacing::format on 3 tokens of ARBITRARY TokenType, arbitrary gaps and arbitrary u16 counters.
+//  Inputs respect the invariant of the pipeline (FormattingData::from): a token's counters come from its leading
+//  whitespace, so "no whitespace" <=> newlines_before == 0 && spaces_before == 0.
 //  S1  spaces_before' <= 1 for every token whose predecessor is not an inline single-line comment
 //      (a token after such a comment starts a line; its count is not used); token 0 gets 0
 //  S2  (Identifier | Keyword) directly followed by (Identifier | Keyword | NumberLiteral): exactly 1
 //  S3  an inline single-line comment that is not the first token gets exactly 1
-//  S4  the result does not depend on newlines/indentations/continuations
+//  S4  (C06) the result is a function of the token kinds and of WHETHER each gap is empty: not of the amount of
+//      horizontal whitespace, not of the indentation, not of whether the gap is blanks or a line break
 //  S5  applying the rule to its own result changes nothing
 //  frame: only spaces_before is written
 #[cfg(kani)]
@@ -11,7 +14,10 @@ mod verif_spacing {
     use super::*;
 
     fn apply(tt: [TokenType; 3], sp: [u16; 3], other: [(u16, u16, u16); 3]) -> [(u16, u16, u16, u16); 3] {
-        let mut toks = [Token::new_ref("a", 0, tt[0]), Token::new_ref("b", 0, tt[1]), Token::new_ref("c", 0, tt[2])];
+        // leading whitespace present exactly when the counters say so (the invariant FormattingData::from establishes)
+        let gap = |i: usize| other[i].0 > 0 || sp[i] > 0;
+        let tok = |text: &'static str, gapped: &'static str, i: usize| if gap(i) { Token::new_ref(gapped, 1, tt[i]) } else { Token::new_ref(text, 0, tt[i]) };
+        let mut toks = [tok("a", " a", 0), tok("b", " b", 1), tok("c", " c", 2)];
         let fmt = vec![
             FormattingData::verif_new(false, other[0].0, other[0].1, other[0].2, sp[0]),
             FormattingData::verif_new(false, other[1].0, other[1].1, other[1].2, sp[1]),
@@ -68,14 +74,30 @@ mod verif_spacing {
     #[kani::unwind(5)]
     fn spacing_layout_independent() {
         let tt: [TokenType; 3] = kani::any();
-        let sp: [u16; 3] = kani::any();
+        let sp1: [u16; 3] = kani::any();
+        let sp2: [u16; 3] = kani::any();
         let o1: [(u16, u16, u16); 3] = kani::any();
         let o2: [(u16, u16, u16); 3] = kani::any();
-        let r1 = apply(tt, sp, o1);
-        let r2 = apply(tt, sp, o2);
+        // two layouts of the same tokens with the same gaps: only the kind / amount of whitespace in each gap differs
+        let comment = |t: TokenType| matches!(t, TokenType::Comment(_));
+        let mut i = 0;
+        while i < 3 {
+            kani::assume((o1[i].0 > 0 || sp1[i] > 0) == (o2[i].0 > 0 || sp2[i] > 0));
+            // the property keeps every gap that touches a comment as it is
+            if comment(tt[i]) || (i > 0 && comment(tt[i - 1])) {
+                kani::assume(o1[i].0 == o2[i].0 && sp1[i] == sp2[i]);
+            }
+            i += 1;
+        }
+        let r1 = apply(tt, sp1, o1);
+        let r2 = apply(tt, sp2, o2);
         kani::cover!(o1[1].0 != o2[1].0, "different line-break counts");
-        assert!(r1[0].3 == r2[0].3 && r1[1].3 == r2[1].3 && r1[2].3 == r2[2].3,
-            "OB spacing/S4_ignores_line_breaks: spacing does not read newline / indentation / continuation counters");
+        kani::cover!(o1[2].0 > 0 && sp1[2] == 0 && o2[2].0 == 0 && sp2[2] > 0, "a line break at column 0 in one layout, blanks in the other");
+        kani::cover!(matches!(tt[1], TokenType::TextLiteral(_)) && r1[2].3 == 1, "a literal keeps the gap after it");
+        // the blanks before the end-of-file token are not this rule's business: EofNewline overwrites them (unit eofnl)
+        let same = |i: usize| matches!(tt[i], TokenType::Eof) || r1[i].3 == r2[i].3;
+        assert!(same(0) && same(1) && same(2),
+            "OB spacing/S4_function_of_kinds_and_gaps: spacing depends on the token kinds and on whether each gap is empty, not on the amount of blanks, the indentation, or blanks versus a line break");
     }
 
     #[kani::proof]
@@ -84,6 +106,7 @@ mod verif_spacing {
         let tt: [TokenType; 3] = kani::any();
         let sp: [u16; 3] = kani::any();
         let r1 = apply(tt, sp, [(0, 0, 0); 3]);
+        // the second run sees the first run's output as text: each gap is exactly the blanks the first run left
         let r2 = apply(tt, [r1[0].3, r1[1].3, r1[2].3], [(0, 0, 0); 3]);
         kani::cover!(sp[1] != r1[1].3, "first application changed something");
         assert!(r1[0].3 == r2[0].3 && r1[1].3 == r2[1].3 && r1[2].3 == r2[2].3,
